@@ -2669,3 +2669,59 @@ func polarConds(p *Prog, n ast.Node) []polarCond {
 	}
 	return out
 }
+
+// ---- R110 ----
+
+func init() {
+	register(&Rule{ID: "R110", Title: "decisions are made in the node's goroutine: every NextAction posts the token's request into the node's mailbox on every path and never answers the token itself", Min: 10, Run: ruleR110})
+}
+
+func ruleR110(c *Ctx) {
+	p := c.P
+	what := "a node serialises what it decides in its own goroutine (probe and report for a gateway, activation for an event, the request bookkeeping of a task); a NextAction that answers a token directly — a 'fast path' for a seemingly trivial case — bypasses that: the gateway's error report for 'no flow is true' is lost, join counters and activation flags are not updated, and the answer races the node's own"
+	n := 0
+	for _, f := range p.Funcs {
+		if f.Obj == nil || f.Body == nil || f.Pkg.PkgPath != pathBpmn || f.Obj.Name() != "NextAction" || recvNamed(f.Obj) == nil {
+			continue
+		}
+		sig := f.Obj.Type().(*types.Signature)
+		if sig.Results().Len() != 1 || !isReplyChan(sig.Results().At(0).Type()) {
+			continue
+		}
+		n++
+		in := info(f)
+		g := p.Graph(f)
+		isPost := func(nd ast.Node) bool {
+			found := false
+			ast.Inspect(nd, func(m ast.Node) bool {
+				if s, ok := m.(*ast.SendStmt); ok && isMailboxChan(in.TypeOf(s.Chan)) {
+					found = true
+				}
+				return !found
+			})
+			return found
+		}
+		bad := g.MustPassBeforeExit(g.Entry(), true, func(nd ast.Node) bool { return nd != nil && isPost(nd) })
+		direct := ""
+		ast.Inspect(f.Body, func(m ast.Node) bool {
+			if s, ok := m.(*ast.SendStmt); ok && isReplyChan(in.TypeOf(s.Chan)) {
+				if _, isAct := in.TypeOf(s.Value).Underlying().(*types.Chan); !isAct {
+					direct = p.Pos(s.Pos())
+				}
+			}
+			return true
+		})
+		ok := len(bad) == 0 && direct == ""
+		wit := "every path posts the request into the mailbox; no action is sent from NextAction"
+		if len(bad) > 0 {
+			wit = "a path returns without posting the request: " + witnessLines(g, bad)
+		}
+		if direct != "" {
+			wit += "; NextAction itself sends an action at " + direct
+		}
+		c.Check(ok, f, f.Decl, "NextAction of "+recvNamed(f.Obj).Obj().Name(), what, wit)
+	}
+	if n == 0 {
+		c.Missing("NextAction implementations", "no method NextAction returning a reply channel was found")
+	}
+}
